@@ -166,12 +166,9 @@ private:
 
 		void Swap(Data& data) noexcept
 		{
-			if (!MemManagerProxy::IsEqual(*this, data))
-			{
-				MemManager memManager(std::move(static_cast<MemManager&>(*this)));
-				MemManagerProxy::Assign(std::move(static_cast<MemManager&>(data)), *this);
-				MemManagerProxy::Assign(std::move(memManager), data);
-			}
+			MemManager memManager(std::move(static_cast<MemManager&>(*this)));
+			MemManagerProxy::Assign(std::move(static_cast<MemManager&>(data)), *this);
+			MemManagerProxy::Assign(std::move(memManager), data);
 			std::swap(allocCount, data.allocCount);
 		}
 
